@@ -394,9 +394,10 @@ def check_fixed(ck):
             tds = [o[1] for o in rr["log"] if o[0] == "Td"]
             if not ("raised" in out and {"crash": 0} in leaves(out["raised"])):
                 ck.fail_input("C15:crash-at-teardown-vanished", f"service task 0 raised while the root teardown cancelled it; "
-                              f"run_application ended with {out}", replay_obj(dict(rr, timeout=30)))
+                              f"run_application ended with {out}", dict(replay_obj(dict(rr, timeout=30)), fixed="svc-raises-on-cancel"))
             elif tds != [1, 4, 3, 0]:
-                ck.fail_input("C15:callbacks-order", f"registered [0, 3, 4, 1], ran {tds}", replay_obj(dict(rr, timeout=30)))
+                ck.fail_input("C15:callbacks-order", f"registered [0, 3, 4, 1], ran {tds}",
+                              dict(replay_obj(dict(rr, timeout=30)), fixed="svc-raises-on-cancel"))
     return n
 
 
@@ -483,6 +484,12 @@ def replay(ck: Check, obj) -> int:
         return 1
     print("log:", r["log"])
     print("outcome:", r["outcome"])
+    if rp.get("fixed") == "svc-raises-on-cancel":
+        ok = "raised" in r["outcome"] and {"crash": 0} in leaves(r["outcome"]["raised"]) \
+            and [o[1] for o in r["log"] if o[0] == "Td"] == [1, 4, 3, 0]
+        print("the service task's exception came out after the full teardown" if ok else
+              "ORACLE: C15:crash-at-teardown-vanished (or teardown incomplete)")
+        return 0 if ok else 1
     bad = oracle(r)
     for b in bad:
         print("ORACLE:", b[0], "-", b[1])
